@@ -649,12 +649,15 @@ func (c *fnCtx) dominators(b *ssa.BasicBlock) []*ssa.BasicBlock {
 type factSetB struct {
 	ineqs []Ineq
 	neqs  []Lin
+	at    *ssa.BasicBlock // program point the facts were collected for
+	idx   int
 }
 
 // factsAt collects the facts available just before instruction index idx of block b
 // (idx == len(b.Instrs) means the end of the block).
 func (c *fnCtx) factsAt(b *ssa.BasicBlock, idx int) factSetB {
 	var fs factSetB
+	fs.at, fs.idx = b, idx
 	for _, f := range c.facts[b] {
 		qs, ns := c.factIneqs(f)
 		fs.ineqs = append(fs.ineqs, qs...)
@@ -794,6 +797,11 @@ func (c *fnCtx) calleeBinding(ret *ssa.Return) map[string]Lin {
 				m[fmt.Sprintf("len(R%d)", j)] = c.linLen(r)
 			}
 		}
+		if c.tracked != nil {
+			for k, v := range c.stateBinding(c.verAt[ret]) {
+				m[strings.Replace(k, "F:", "G:", 1)] = v
+			}
+		}
 	}
 	return m
 }
@@ -827,6 +835,13 @@ func (c *fnCtx) callerBinding(call ssa.CallInstruction, withResults bool) map[st
 			}
 		}
 	}
+	if withResults && c.tracked != nil && c.callEstablishesInv(call) {
+		if st, ok := c.verAfter[call]; ok {
+			for k, v := range c.stateBinding(st) {
+				m[strings.Replace(k, "F:", "G:", 1)] = v
+			}
+		}
+	}
 	if withResults {
 		if v, ok := call.(*ssa.Call); ok {
 			sig := v.Call.Signature()
@@ -854,10 +869,91 @@ func (c *fnCtx) callerBinding(call ssa.CallInstruction, withResults bool) map[st
 
 // ---------- proving ----------
 
+// usableAt: every atom of l denotes a value that exists when control is just before
+// instruction idx of block b (its defining instruction / creating store or call executed
+// earlier on every path). A definitional fact about the result of a partial operation (a
+// slice expression, say) silently assumes the operation succeeded, so it must not be used
+// to discharge the obligation of that very operation or of anything before it.
+func (c *fnCtx) usableAt(l Lin, b *ssa.BasicBlock, idx int) bool {
+	for a := range l.C {
+		name := a
+		if strings.HasPrefix(name, "len(") && strings.HasSuffix(name, ")") {
+			name = name[4 : len(name)-1]
+		}
+		if strings.HasPrefix(name, "this.") {
+			ver := name[strings.LastIndexByte(name, '@')+1:]
+			if ver == "0" {
+				continue
+			}
+			var bi, ii int
+			switch ver[0] {
+			case 'j':
+				if n, _ := fmt.Sscanf(ver[1:], "%d", &bi); n != 1 || bi >= len(c.fn.Blocks) {
+					return false
+				}
+				if vb := c.fn.Blocks[bi]; vb != b && !vb.Dominates(b) {
+					return false
+				}
+			default:
+				if n, _ := fmt.Sscanf(ver[1:], "%d.%d", &bi, &ii); n != 2 || bi >= len(c.fn.Blocks) {
+					return false
+				}
+				vb := c.fn.Blocks[bi]
+				if vb == b {
+					if ii >= idx {
+						return false
+					}
+				} else if !vb.Dominates(b) {
+					return false
+				}
+			}
+			continue
+		}
+		v, ok := c.rev[name]
+		if !ok {
+			continue // synthetic atom without an SSA origin
+		}
+		in, ok := v.(ssa.Instruction)
+		if !ok {
+			continue // parameter, constant, global
+		}
+		vb := in.Block()
+		if vb == nil {
+			continue
+		}
+		if vb == b {
+			if _, isPhi := v.(*ssa.Phi); isPhi {
+				continue
+			}
+			if blockIndexOf(in) >= idx {
+				return false
+			}
+		} else if !vb.Dominates(b) {
+			return false
+		}
+	}
+	return true
+}
+
 func (c *fnCtx) entailsSat(fs factSetB, goal Ineq) bool {
 	c.e.proofs++
 	facts := append([]Ineq{}, fs.ineqs...)
-	facts = append(facts, c.defs...)
+	usable := func(qs []Ineq) bool {
+		if fs.at == nil {
+			return true
+		}
+		for _, q := range qs {
+			if !c.usableAt(q.L, fs.at, fs.idx) {
+				return false
+			}
+		}
+		return true
+	}
+	for _, d := range c.defs {
+		if usable([]Ineq{d}) {
+			facts = append(facts, d)
+		}
+	}
 	if entails(facts, goal) {
 		return true
 	}
@@ -867,7 +963,7 @@ func (c *fnCtx) entailsSat(fs factSetB, goal Ineq) bool {
 	for round := 0; round < 4; round++ {
 		grew := false
 		for _, lm := range c.lemmas {
-			if active[lm.key] {
+			if active[lm.key] || !usable(lm.cond) || !usable(lm.then) {
 				continue
 			}
 			all := true
@@ -909,6 +1005,27 @@ func (c *fnCtx) entailsSat(fs factSetB, goal Ineq) bool {
 			break
 		}
 		if entails(facts, goal) {
+			return true
+		}
+	}
+	// one level of case analysis over min/max results
+	for _, sp := range c.splits {
+		all := len(sp) > 0
+		for _, alt := range sp {
+			if !usable(alt) {
+				all = false
+			}
+		}
+		if !all {
+			continue
+		}
+		for _, alt := range sp {
+			if !entails(append(append([]Ineq{}, facts...), alt...), goal) {
+				all = false
+				break
+			}
+		}
+		if all {
 			return true
 		}
 	}
@@ -970,4 +1087,22 @@ func (c *fnCtx) proveOnEdge(p, b *ssa.BasicBlock, goal Lin) bool {
 		fs.neqs = append(fs.neqs, ns...)
 	}
 	return c.entailsSat(fs, Ineq{g, ""})
+}
+
+// stateAt returns the tracked-field version state just before instruction `at`.
+func (c *fnCtx) stateAt(at ssa.Instruction) map[int]string {
+	if st, ok := c.verAt[at]; ok {
+		return st
+	}
+	b := at.Block()
+	st := copyState(c.verIn[b])
+	for _, in := range b.Instrs {
+		if in == at {
+			break
+		}
+		if after, ok := c.verAfter[in]; ok {
+			st = copyState(after)
+		}
+	}
+	return st
 }
